@@ -45,5 +45,10 @@ func explore(ctx *Ctx) (*Outcome, error) {
 	for _, k := range keys {
 		fmt.Println("  viol", k, ks[k])
 	}
-	return FromSem(ctx, rep, "generic random schemas", 1, nil), nil
+	for _, v := range rep.Violations {
+		fmt.Printf("V %s/%s exp=%s obs=%s :: %s\n    doc=%s\n    schema=%s\n", v.Kind, v.Class, trunc(v.Expected, 80), trunc(v.Observed, 80), trunc(v.Detail, 160), trunc(v.Doc, 200), trunc(fmt.Sprintf("%s", v.Schema), 700))
+	}
+	o := FromSem(ctx, rep, "generic random schemas", 1, nil)
+	o.Violations = nil
+	return o, nil
 }
